@@ -52,6 +52,13 @@ def main():
     for f in ('patch.diff', 'demo.py', 'notes.md'):
       if os.path.exists(f'{src}/{f}'):
         shutil.copy(f'{src}/{f}', f'{dst}/{f}')
+    # the agents' demos import the jax alias shim from their /tmp hand-in directory; the filed copy uses seeded/compat.py
+    dp = f'{dst}/demo.py'
+    if os.path.exists(dp):
+      import re
+      txt = open(dp).read()
+      txt = re.sub(r"""sys\.path\.insert\(0,\s*['"]/tmp/seeded-out\d*['"]\)""", "sys.path.insert(0, __import__('os').path.dirname(__import__('os').path.dirname(__import__('os').path.abspath(__file__))))", txt)
+      open(dp, 'w').write(txt)
     notes = open(f'{src}/notes.md').read() if os.path.exists(f'{src}/notes.md') else ''
     meta = dict(property=prop, id=sid, source='independent sub-agent given only the property text and a scratch worktree',
                 needs_to_manifest=notes[:1500], confirmed=dict(patch_applies=out['applies'], demo_passes_unpatched=a.returncode == 0, demo_fails_patched=b.returncode != 0, baseline_suite_still_passes=out.get('suite_ok')),
